@@ -246,16 +246,23 @@ impl CheckpointManager {
 
     /// Rollback to a checkpoint by ID or name.
     pub async fn rollback(&self, id_or_name: &str, store: &TensorStore) -> Result<()> {
-        let state = {
-            let blob = self.blob.lock().await;
-            CheckpointStorage::load(id_or_name, &blob).await?
-        };
+        // The blob store may keep its data in the very store that is rolled
+        // back (the query router shares one store between all engines and the
+        // blob store). The snapshot then also contains the checkpoint
+        // artifacts as they were when it was taken: without care a rollback
+        // would forget the checkpoint it restores and every later one, and
+        // bring purged ones back. The lock is held throughout.
+        let blob = self.blob.lock().await;
+        let state = CheckpointStorage::load(id_or_name, &blob).await?;
+        let saved = CheckpointStorage::export_all(&blob).await?;
 
-        store
+        let restored = store
             .restore_from_bytes(&state.store_snapshot)
-            .map_err(|e| CheckpointError::Snapshot(e.to_string()))?;
+            .map_err(|e| CheckpointError::Snapshot(e.to_string()));
 
-        Ok(())
+        CheckpointStorage::reinstate(saved, &blob).await?;
+
+        restored
     }
 
     /// Delete a checkpoint by ID or name.
